@@ -11,14 +11,15 @@ import gen as G
 LEVEL = "proof"
 DRIVERS = ["driver_c19"]
 TRUSTED = ["model: coq/Model/Spectrum.v (fftfreq_idx, sort_k/fft_table, nonneg, doubled/double_rows, crop_pad, seg_go/overlap_split, seg_slices/min_len/mean_plan, "
-           "compute_fft/psd/mean_psd over an abstract field) over Model/Restrict.v and Model/Slice.v; theorems: Proofs/SpectrumIndexProofs.v, SpectrumFieldProofs.v, SpectrumProofs.v",
+           "compute_fft/psd/mean_psd over an abstract field) over Model/Restrict.v and Model/Slice.v; theorems: Proofs/SpectrumIndexProofs.v, SpectrumFieldProofs.v, SpectrumProofs.v, SpectrumExample.v (Qc instance)",
            "PARTIAL: np.fft.fft is a parameter `dft` of the model; its laws are hypotheses of the closed theorems (length_law; parseval_at x: sum|X_k|^2 = n sum x_j^2; "
            "hermitian_at x: |X_{n-k}|^2 = |X_k|^2), stated at the one signal they are used for; scipy.signal.windows.hamming is a parameter `window` (only its length is used)",
            "values live in an abstract field K (field_theory with Leibniz equality, characteristic 0): the hypotheses are visible in every closed statement; floats are idealised as that field",
            "harness: the DFT used by the oracle is a direct O(n^2) evaluation of sum x_j exp(-2 pi i jk/n) (not np.fft.fft); real-valued outputs are compared to a declared relative "
            "tolerance 1e-9; frequencies, ordering, doubling mask, scale, crop/pad and total power are compared as discrete quantities recovered from the output (integer k = f n/fs, "
            "psd_k fs n/|X_k|^2 snapped to {1,2}, inverse transform rounded to the integer samples, sum psd * fs rounded to the integer sum of squares)"]
-ASSUMPTIONS = ["sampling rate fs > 0 and frequency step fs/n > 2e-6 (otherwise the 1e-6 guard of the one-sided mask is not exact); fs and 1e-6 are idealised as exact rationals",
+ASSUMPTIONS = ["sampling rate fs > 0; fs and 1e-6 are idealised as exact rationals. The doubling theorems need fs/(2n) > 1e-6; below that the mask is refuted in Coq "
+               "(C19_onesided_mask_low_rate_refuted) and the harness reports the replayed witness with key regime='fs/(2n)<=1e-6' (candidate known finding)",
                "for even n the one-sided forms DROP the Nyquist bin (np.fft.fftfreq puts it at -fs/2): one-sided total = full total - Nyquist term (theorem C19_onesided_sum_even); "
                "the property only states which bins are doubled, so this is recorded and not reported",
                "_overlap_split is modelled on ticks with the step st = (1-overlap)*interval_size a whole number of ticks (a rational overlap a/b is the same model on times scaled by b); "
